@@ -672,6 +672,11 @@ def judge(script, answers, stderr, rc, variant=None):
                 kind = pre + "status-mismatch-after-" + name
             else:
                 kind = pre + "mismatch-after-" + name
+            if m.group(1) == "MOVEDFROM-NOT-EMPTY" and fam in ("landscape", "cubical", "cubicalp"):
+                # "a moved-from object is empty and usable again" is stated by the property for simplex trees and matrices;
+                # for the other value classes only independence and memory safety are demanded (a moved-from
+                # Persistence_landscape keeps its two vectorisation counters, which is harmless and not a violation)
+                continue
             if m.group(1) == "MOVEDFROM-NOT-EMPTY":
                 # the harness goes on (the slot stays moved-from): reported once, the rest of the script is still judged
                 if not any(k == kind for (k, _, _, _, _) in out):
